@@ -1,32 +1,196 @@
 package main
 
 import (
+	"flag"
 	"fmt"
 	"os"
-
-	"golang.org/x/tools/go/packages"
-	"golang.org/x/tools/go/ssa"
-	"golang.org/x/tools/go/ssa/ssautil"
+	"path/filepath"
+	"sort"
+	"strings"
+	"time"
 )
 
+func usage() {
+	fmt.Fprintln(os.Stderr, `govc - contract-based deductive verification of /repo (go/ssa -> VCs -> SMT)
+  govc check --property Cxx [--tier quick|thorough]
+  govc verify --pkg <pattern,...> --fn <key,...> [-v]
+  govc ssa <pkg pattern> [function name]
+  govc list [--property Cxx]
+  govc selftest`)
+	os.Exit(2)
+}
+
 func main() {
-	cfg := &packages.Config{Mode: packages.LoadSyntax, Dir: "/repo", BuildFlags: []string{"-tags=verif", "-modfile=/verif/out/go.mod"}, Env: append(os.Environ(), "GOFLAGS=-mod=mod", "GOPROXY=off", "GOSUMDB=off", "GOTOOLCHAIN=local")}
-	pkgs, err := packages.Load(cfg, os.Args[1])
-	if err != nil {
-		panic(err)
+	if len(os.Args) < 2 {
+		usage()
 	}
-	prog, spkgs := ssautil.Packages(pkgs, ssa.InstantiateGenerics|ssa.GlobalDebug)
-	_ = prog
-	for _, p := range spkgs {
-		p.Build()
-		for _, m := range p.Members {
-			if f, ok := m.(*ssa.Function); ok && (len(os.Args) < 3 || f.Name() == os.Args[2]) {
-				f.WriteTo(os.Stdout)
-				for _, af := range f.AnonFuncs {
-					af.WriteTo(os.Stdout)
+	switch os.Args[1] {
+	case "ssa":
+		cmdSSA(os.Args[2:])
+	case "verify":
+		cmdVerify(os.Args[2:])
+	case "check":
+		cmdCheck(os.Args[2:])
+	case "list":
+		cmdList(os.Args[2:])
+	case "selftest":
+		cmdSelftest(os.Args[2:])
+	case "replay":
+		cmdReplay(os.Args[2:])
+	default:
+		usage()
+	}
+}
+
+func cmdSSA(args []string) {
+	if len(args) < 1 {
+		usage()
+	}
+	g, err := loadGen([]string{args[0]}, nil)
+	if err != nil {
+		fmt.Fprintln(os.Stderr, err)
+		os.Exit(2)
+	}
+	for _, k := range g.sortedFnKeys() {
+		f := g.fnIndex[k]
+		if len(args) > 1 && !strings.Contains(k, args[1]) {
+			continue
+		}
+		if f.Blocks == nil {
+			continue
+		}
+		fmt.Printf("### key: %s\n", k)
+		f.WriteTo(os.Stdout)
+	}
+}
+
+type fnResult struct {
+	Key   string
+	Err   error
+	Obs   []*Oblig
+	FG    *FG
+}
+
+// verifyFns generates and discharges the obligations of the listed functions.
+func verifyFns(g *Gen, keys []string, outDir, tier string, seed int) []*fnResult {
+	var results []*fnResult
+	var all []*Oblig
+	for _, k := range keys {
+		r := &fnResult{Key: k}
+		results = append(results, r)
+		c := g.ct.C[k]
+		if c == nil {
+			r.Err = fmt.Errorf("%s: no contract found", k)
+			continue
+		}
+		if c.Kind == "lemma" {
+			fg, err := genLemma(g, c)
+			r.FG = fg
+			if err != nil {
+				r.Err = err
+				continue
+			}
+			r.Obs = fg.obligations()
+			all = append(all, r.Obs...)
+			continue
+		}
+		fn := g.fnIndex[k]
+		if fn == nil {
+			r.Err = fmt.Errorf("%s: contract does not bind to any function in the loaded packages", k)
+			continue
+		}
+		if c.Assumed {
+			r.Err = fmt.Errorf("%s: contract is marked assumed, cannot be verified", k)
+			continue
+		}
+		fg := newFG(g, fn, c)
+		r.FG = fg
+		if err := fg.run(); err != nil {
+			r.Err = err
+			continue
+		}
+		r.Obs = fg.obligations()
+		all = append(all, r.Obs...)
+	}
+	dischargeAll(all, outDir, tier, seed)
+	return results
+}
+
+func (fg *FG) obligations() []*Oblig {
+	var out []*Oblig
+	for _, it := range fg.items {
+		if it.kind == itOblig {
+			out = append(out, it.ob)
+		}
+	}
+	return out
+}
+
+func (o *Oblig) ok() bool {
+	if o.Cover {
+		return o.Result != "unsat"
+	}
+	return o.Result == "unsat"
+}
+
+func cmdVerify(args []string) {
+	fs := flag.NewFlagSet("verify", flag.ExitOnError)
+	pkg := fs.String("pkg", "", "package patterns (comma separated)")
+	fn := fs.String("fn", "", "function keys (comma separated); empty = all functions with contracts in the packages")
+	verbose := fs.Bool("v", false, "verbose")
+	tier := fs.String("tier", "quick", "tier")
+	model := fs.Bool("model", false, "print models of failed obligations")
+	fs.Parse(args)
+	t0 := time.Now()
+	g, err := loadGen(strings.Split(*pkg, ","), nil)
+	if err != nil {
+		fmt.Fprintln(os.Stderr, err)
+		os.Exit(2)
+	}
+	var keys []string
+	if *fn != "" {
+		keys = strings.Split(*fn, ",")
+	} else {
+		for k, c := range g.ct.C {
+			if c.Kind == "func" && !c.Assumed && g.fnIndex[k] != nil {
+				keys = append(keys, k)
+			}
+		}
+		sort.Strings(keys)
+	}
+	fmt.Printf("loaded in %.1fs\n", time.Since(t0).Seconds())
+	outDir := filepath.Join(verifDir, "out", "smt", "dev")
+	os.RemoveAll(outDir)
+	res := verifyFns(g, keys, outDir, *tier, 0)
+	bad := 0
+	for _, r := range res {
+		if r.Err != nil {
+			fmt.Printf("ERROR %v\n", r.Err)
+			bad++
+			continue
+		}
+		nok := 0
+		for _, o := range r.Obs {
+			if o.ok() {
+				nok++
+			}
+		}
+		fmt.Printf("%-50s %d/%d obligations\n", r.Key, nok, len(r.Obs))
+		for _, o := range r.Obs {
+			if !o.ok() || *verbose {
+				fmt.Printf("   %-8s %-60s %s %.2fs  %s\n", o.Result, o.Name, o.Solver, o.TimeS, o.Src)
+				if !o.ok() {
+					bad++
+					fmt.Printf("      file: %s\n", o.File)
+					if *model {
+						fmt.Println(getModel(o, 20))
+					}
 				}
 			}
 		}
 	}
-	fmt.Println("ok")
+	fmt.Printf("total %.1fs, %d problems\n", time.Since(t0).Seconds(), bad)
+	if bad > 0 {
+		os.Exit(1)
+	}
 }
